@@ -47,6 +47,14 @@ theorem autoInt_spell_script (z0 : Nat) (hz : z0 ∈ decZeros) (sp : Spelling) (
     autoIntL (toScript z0 (spell sp z)) = some z := by
   rw [autoIntL_toScript z0 hz]; exact autoIntL_spell sp h z
 
+/-- each decimal digit of each script is read as its value -/
+theorem autoInt_digit_any_script (z0 : Nat) (hz : z0 ∈ decZeros) (d : Nat) (hd : d < 10) :
+    autoIntL [Char.ofNat (z0 + d)] = some (d : Int) := by
+  unfold autoIntL
+  simp only [List.map_cons, List.map_nil, normChar_digit z0 hz d hd]
+  have : ∀ k, k < 10 → autoIntA [Char.ofNat (48 + k)] = some (k : Int) := by decide
+  exact this d hd
+
 example : toScript 0x0660 (spell { base := .hex, wsL := [Char.ofNat 0xA0] } (-31)) =
     [Char.ofNat 0xA0, '-', Char.ofNat 0x0660, 'x', Char.ofNat 0x0661, 'f'] := by decide +kernel
 
@@ -438,6 +446,24 @@ theorem connect_accepts (t : Transport) (ht : t ∈ transportTable) (h : Str) (h
                  if t.usesPath then some [] else none,
                  t.fields.map fun f => (f.name, (asg f.name).map Written.val)⟩) :=
   connectPlan_fromParts t ht h hok p hp args asg hw
+
+/-- a plain `int` setting (`ack_timeout`, `frame_txtime`, `tx_dl`) in decimal with optional sign, leading zeros, a `.0…0` suffix and
+    any white space pydantic trims is read as the number written -/
+theorem plain_int_spell (ls : LaxSp) (h : ls.WF) (z : Int) : plainInt (laxText ls z) = some z := plainInt_laxText ls h z
+
+example : laxText { wsL := [Char.ofNat 0xA0], plus := true, zeros := 2, frac := 3, wsR := ['\n'] } 1000 =
+    [Char.ofNat 0xA0, '+', '0', '0', '1', '0', '0', '0', '.', '0', '0', '0', '\n'] := by decide +kernel
+
+/-- what a plain `int` setting does not accept: other bases, exponents, a fraction, inner spaces, U+001C -/
+example : plainInt "0x10".toList = none ∧ plainInt "1e3".toList = none ∧ plainInt "1.5".toList = none ∧
+    plainInt "1 0".toList = none ∧ plainInt [Char.ofNat 0x1C, '1'] = none ∧ plainInt "1_0".toList = some 10 := by decide +kernel
+
+/-- a `bool` setting (`is_fd`, `is_extended`): each accepted word in each capitalisation -/
+theorem bool_spell (wb : Str × Bool) (h : wb ∈ boolWords) (mask : List Bool) : boolVal (caseVar mask wb.1) = some wb.2 :=
+  boolVal_caseVar wb h mask
+
+example : caseVar [true, false, true] ['y', 'e', 's'] = ['Y', 'e', 'S'] ∧ boolVal ['t', 'r', 'u', 'e', ' '] = none ∧
+    boolVal ['2'] = none := by decide +kernel
 
 /-- non-vacuous: a raw-CAN target with `is_fd=TRUE`, `dst_id=  0X_7_ff`, and two parameters that are no fields -/
 def canRawDemo : Args :=
